@@ -3,6 +3,7 @@ package props
 // C09 - a partial forest stores only true, needed hashes and can always prove its cache.
 
 import (
+	"bytes"
 	"fmt"
 	"sort"
 	"testing"
@@ -13,7 +14,7 @@ import (
 )
 
 type C09Step struct {
-	Op  string `json:"op"` // block | verify | ingest | prune | undo
+	Op  string `json:"op"` // block | verify | ingest | vpp | prune | undo | restart | badverify | badmodify
 	B   *Block `json:"b,omitempty"`
 	Set []int  `json:"set,omitempty"`
 	// Stale (prune only): slots whose hashes the forest does not cache (spent leaves, live leaves it never
@@ -76,6 +77,11 @@ func genC09(t *rapid.T) C09Case {
 	branch := 0
 	for i := 0; i < n; i++ {
 		op := rapid.SampledFrom([]string{"block", "block", "block", "verify", "ingest", "vpp", "prune", "undo"}).Draw(t, "op")
+		if rapid.IntRange(0, 9).Draw(t, "restart") == 0 {
+			// the process is shut down and started again: the forest is written out and replaced by what its own
+			// bytes restore to; everything that follows - prune, undo, remember calls, blocks - meets a restored forest
+			c.Steps = append(c.Steps, C09Step{Op: "restart"})
+		}
 		live := f.Live()
 		switch {
 		case (op == "verify" || op == "ingest" || op == "vpp") && len(live) == 0:
@@ -415,6 +421,22 @@ func runC09(c C09Case) *Result {
 				res.count("undos-reaching-behind-the-roots-snapshot", 1)
 			}
 			if err := check(fmt.Sprintf("step %d after Undo of block {del %v, add %d}", i, fr.b.Del, fr.b.Add)); err != nil {
+				return res.failf("%v", err)
+			}
+		case "restart":
+			var buf bytes.Buffer
+			if _, err := serialize(in, &buf); err != nil {
+				return res.failf("step %d: writing the forest failed: %v", i, err)
+			}
+			in2, _, err, perr := restore(in.Cfg, bytes.NewReader(buf.Bytes()))
+			if perr != nil {
+				err = perr
+			}
+			if err != nil {
+				return res.failf("step %d: restoring the forest from its own %d bytes failed: %v", i, buf.Len(), err)
+			}
+			in = in2
+			if err := check(fmt.Sprintf("step %d after the forest was written out and restored", i)); err != nil {
 				return res.failf("%v", err)
 			}
 		default:
